@@ -23,6 +23,7 @@ require (
 	github.com/samber/ro/plugins/strings v0.0.0
 	github.com/samber/ro/plugins/template v0.0.0
 	github.com/samber/ro/plugins/time v0.0.0
+	github.com/ulule/limiter/v3 v3.11.2
 	golang.org/x/exp v0.0.0-20240613232115-7f521ea00fb8
 	golang.org/x/sys v0.29.0
 	verif.local/vrt v0.0.0
@@ -36,7 +37,6 @@ require (
 	github.com/pkg/errors v0.9.1 // indirect
 	github.com/prometheus/common v0.44.0 // indirect
 	github.com/prometheus/procfs v0.15.1 // indirect
-	github.com/ulule/limiter/v3 v3.11.2 // indirect
 	golang.org/x/text v0.22.0 // indirect
 	google.golang.org/protobuf v1.34.2 // indirect
 )
@@ -76,3 +76,7 @@ replace github.com/samber/ro/plugins/ratelimit/ulule => /repo/plugins/ratelimit/
 replace github.com/samber/ro/ee/plugins/prometheus => /repo/ee/plugins/prometheus
 
 replace github.com/samber/ro/ee => /repo/ee
+
+// a writable copy of the module (made by bin/setup from the module cache) so that the build overlay
+// applies to its in-memory store
+replace github.com/ulule/limiter/v3 => ../.cache/ulule-limiter
